@@ -43,3 +43,14 @@ package config
 //@   at call dfsMerge#1 assert a0 == m && a2 == entry
 //@   at call mergeItems#1 assert a1 == fatherSectionMap[sec] && a2 == sectionMap[sec]
 //@   ensures err == nil ==> calls("readEntry") == 1
+
+// The (must) parameter is appended to what the user wrote: the rule's own current parameter list is the
+// list the append extends (so no user parameter such as mark is dropped), for rules and for the fallback.
+//@ func patchMustOutbound
+//@   requires params != nil
+//@   anchorsonly
+//@   dyncalls noeffect
+//@   modifies *
+//@   at call builtin:append#1 assert a0 == params.Routing.Rules[$idx].Outbound.Params
+//@   at call builtin:append#1 assert-after len(result) == len(a0) + 1
+//@   at call builtin:append#2 assert a0 == f.Params
